@@ -12,6 +12,9 @@ FAMILIES = [("Sat3", "any"), ("Sat3", "any"), ("Rat", "acyclic"), ("Bool", "any"
 
 
 def generate(rng, tier, shard, nshards):
+    for G in fam.tlc_family(shard, nshards):      # (C) the exhaustive family enumerated by TLC
+        for how in ("agenda", "naive"):
+            yield gops.event("treesum", {"sr": "Sat3", "G": G, "how": how}, site=how, feat="tlc-family")
     n = 60 if tier == "quick" else 600
     for gi in range(n):
         srn, shape = FAMILIES[gi % len(FAMILIES)]
@@ -43,6 +46,63 @@ def generate(rng, tier, shard, nshards):
                              feat="many-subtolerance-contributions", timeout=120)
 
 
+def schedule_events(rng, tier):
+    """Every pop order of the agenda on the real code (stateless search over the choosing chart)."""
+    import vchart
+    out = []
+    n = 30 if tier == "quick" else 300
+    for gi in range(n):
+        srn = "Sat3"
+        R = gops.SR[srn]
+        rules = fam.rand_rules(rng, R, nN=3, nrules=rng.choice([2, 3, 4]), maxbody=2)
+        Ns = ["S", "A", "B"]
+        x, y = rng.sample(Ns, 2)               # mutually recursive symbols share a bucket: several pending updates
+        ws = fam.weights_for(R)
+        rules += [(rng.choice(ws), x, (y, "a")), (rng.choice(ws), y, (x,) if rng.random() < 0.5 else ("b", x)),
+                  (rng.choice(ws), y, ("b",)), (rng.choice(ws), x, (y, y) if rng.random() < 0.5 else ("a",))]
+        rng.shuffle(rules)
+        g = fam.build_cfg(R, rules)
+        G, _ = cfg_proj(g)
+        feat = fam.feature_key(g)
+        stack, seen = [()], 0
+        while stack and seen < (12 if tier == "quick" else 100):
+            script = stack.pop()
+            e = gops.event("treesum", {"sr": srn, "G": G, "how": "agenda", "popscript": list(script)},
+                           site="agenda[pop-order]", feat=("pop-order/" + feat) if script else feat)
+            ar = list(vchart.CTRL.arities or [])
+            seen += 1
+            out.append(e)
+            for p in range(len(script), len(ar)):
+                for alt in range(1, ar[p]):
+                    stack.append(tuple(script) + (0,) * (p - len(script)) + (alt,))
+    return out
+
+
+MC_CFG = """CONSTANTS NTS = {"S", "A"}
+ TS = {"a"}
+ MAXBODY = 2
+ MAXRULES = %d
+ WEIGHTS = {%s}
+ SRNAME = "Sat3"
+INIT Init
+NEXT Next
+INVARIANT NoLateUpdate
+INVARIANT Bounded
+INVARIANT Final
+CHECK_DEADLOCK FALSE
+"""
+
+
+def model_check(report, tier):
+    """(A) Treesum.tla: every grammar of the scope x every compatible bucket numbering x every pop order."""
+    from common import run_tlc, MachineryError
+    for maxrules, ws in ([(2, "1, 2")] if tier == "quick" else [(2, "1, 2"), (3, "1")]):
+        res = run_tlc("Treesum", MC_CFG % (maxrules, ws), timeout=3000)
+        if not res.ok or res.left != 0:
+            raise MachineryError("Treesum.tla: design-level check failed (the model, not the code):\n" + res.errhead)
+        report.add_tlc(res, f"Treesum.tla <= {maxrules} rules, weights {{{ws}}}: NoLateUpdate, Bounded, Final for every pop order")
+
+
 def selftests(events, rng):
     out = []
     cands = [e for e in events if "exc" not in e and e["op"] == "treesum" and e["chart"]]
@@ -63,7 +123,12 @@ def selftests(events, rng):
 
 
 def run(report, tier, seed):
-    standard_run(report, "C08", MODULE, tier, seed, selftests,
+    import random
+    from common import semantic_core
+    model_check(report, tier)
+    famfile = semantic_core(report, ["TotalIsSum", "PrefixEmpty"], maxrules=2)
+    standard_run(report, "C08", MODULE, tier, seed, selftests, extra_events=schedule_events(random.Random(seed + 3), tier),
+                 extra_env={"VERIF_FAMILY": famfile},
                  rule=("random grammars: Sat3/Sat2/Bool with arbitrary recursion (least fixed point reached exactly by "
                        "Kleene iteration in TLC), exact rationals and MaxTimes on grammars with finitely many "
                        "derivations; agenda() and naive_bottom_up() charts for every nonterminal, expected_length via "
